@@ -5,7 +5,11 @@ _BASE_EXPL = ("in-process differential: `jq::eval` vs `eval_generic::eval_with_c
               "disagreement is reported as EVALS-DISAGREE (always a violation); for programs inside the Lean model's fragment "
               "the common answer is additionally compared with the model's run line (coverage.in_fragment_rate); "
               "plus an order class: order-sensitive programs (sort, unique, min, max, group_by, < >) on arrays of objects over "
-              "one key set with permuted insertion orders, where only the model comparison can see a wrong shared comparator")
+              "one key set with permuted insertion orders, where only the model comparison can see a wrong shared comparator; "
+              "plus a text class: computed slice bounds (arithmetic, paths, variables, negative, null, fractional) on navigated "
+              "strings and arrays and the byte-vs-character sensitive builtins (length, utf8bytelength, explode/implode, "
+              "index/rindex/indices, ltrimstr/rtrimstr, split, @formats) on documents whose strings hold 2-, 3- and 4-byte "
+              "characters, combining marks and ZWJ sequences")
 
 
 def _verdict(req, impl, model):
